@@ -1,0 +1,80 @@
+//! Verification hooks.  Compiled only with `--cfg blue_verif`; nothing here exists otherwise.
+//!
+//! The hooks record a totally ordered trace of events.  Every call to [event] is made from inside
+//! the critical section that makes the recorded step atomic, so the order of the trace is
+//! consistent with the order of the steps it records.
+
+use std::cell::Cell;
+use std::sync::Mutex;
+use std::sync::atomic::{AtomicUsize, Ordering};
+
+/// One recorded event.
+#[derive(Clone, Debug, Eq, PartialEq)]
+pub struct Event {
+    /// The thread, as set by [set_tid].
+    pub tid: u64,
+    /// The program point.
+    pub what: &'static str,
+    /// Arguments; meaning depends on the program point.
+    pub a: u64,
+    /// Arguments; meaning depends on the program point.
+    pub b: u64,
+    /// Arguments; meaning depends on the program point.
+    pub c: u64,
+}
+
+static TRACE: Mutex<Option<Vec<Event>>> = Mutex::new(None);
+static SLOTS: AtomicUsize = AtomicUsize::new(0);
+
+thread_local! {
+    static TID: Cell<u64> = const { Cell::new(u64::MAX) };
+}
+
+/// Name the calling thread in subsequent events.
+pub fn set_tid(tid: u64) {
+    TID.with(|t| t.set(tid));
+}
+
+/// Start recording (drops anything recorded before).
+pub fn start() {
+    *TRACE.lock().unwrap_or_else(|e| e.into_inner()) = Some(Vec::new());
+}
+
+/// Stop recording and return the trace.
+pub fn take() -> Vec<Event> {
+    TRACE
+        .lock()
+        .unwrap_or_else(|e| e.into_inner())
+        .take()
+        .unwrap_or_default()
+}
+
+/// Number of events recorded so far that satisfy `f`.
+pub fn count(f: impl Fn(&Event) -> bool) -> usize {
+    match TRACE.lock().unwrap_or_else(|e| e.into_inner()).as_ref() {
+        Some(v) => v.iter().filter(|e| f(e)).count(),
+        None => 0,
+    }
+}
+
+/// Record an event, if recording.
+pub fn event(what: &'static str, a: u64, b: u64, c: u64) {
+    let mut trace = TRACE.lock().unwrap_or_else(|e| e.into_inner());
+    if let Some(trace) = trace.as_mut() {
+        let tid = TID.with(|t| t.get());
+        trace.push(Event { tid, what, a, b, c });
+    }
+}
+
+/// Make wait lists created from now on have `n` slots instead of MAX_CONCURRENCY (0 = default).
+pub fn set_slots(n: usize) {
+    SLOTS.store(n, Ordering::SeqCst);
+}
+
+/// The number of slots for a new wait list.
+pub fn slots(default: usize) -> usize {
+    match SLOTS.load(Ordering::SeqCst) {
+        0 => default,
+        n => n,
+    }
+}
